@@ -10,4 +10,13 @@
 EXTENDS Naturals
 WorkBound(len) == 64 * (len + 1) + 256
 WorkOK(len, work) == work <= WorkBound(len)
+
+(* Work that is not visible as input operations (token queue, simple-key and indentation stacks,
+   tag and anchor tables, the loader's containers) is judged by scaling: a family of inputs
+   text(n) is run at n and at 16n and the CPU time consumed (microseconds) compared per 1000
+   characters of input. Linear work keeps the cost per 1000 characters constant; the bound allows
+   it to grow sixfold (allocator and cache effects; measured worst on the pinned tree: 2.5) plus
+   60 microseconds per 1000 characters, and quadratic work makes it grow sixteenfold.          *)
+CostPerK(len, us) == us \div ((len \div 1000) + 1)
+ScaleOK(len1, us1, len2, us2) == CostPerK(len2, us2) <= 6 * CostPerK(len1, us1) + 60
 ======================================================================
